@@ -13,7 +13,7 @@ package tree
 //@   pure
 
 // decoding the stored bytes of an update is deterministic (the update itself is immutable)
-//@ spec tvOf(Ref) Ref
+//@ spec tvOf(*cache.Update) *sdcpb.TypedValue
 //@ extern (*cache.Update).Value
 //@   noeffect
 //@   ensures r0 == tvOf(u)
@@ -142,6 +142,7 @@ package tree
 //@   ensures only_ruler_send [C01 C09]: onlyNewOrUpdated && result != nil ==> rules(lv, result)
 //@   ensures only_ruler_view [C04]: !onlyNewOrUpdated && result != nil ==> rules(lv, result)
 //@   ensures never_running_send [C01 C09]: onlyNewOrUpdated && result != nil ==> result.Update.owner != RunningIntentName
+//@   ensures view_is_total [C04]: !onlyNewOrUpdated && includeDefaults && len(lv.les) > 0 ==> result != nil
 //@   ensures nothing_when_all_removed [C01]: onlyNewOrUpdated && allIntentValuesRemoved(lv) ==> result == nil
 //@   ensures must_send [C01]: onlyNewOrUpdated ==> forall(r, 0, len(lv.les),
 //@            rules(lv, lv.les[r]) && intentOwned(lv.les[r]) &&
@@ -225,3 +226,30 @@ package tree
 //@   loop 0 invariant $map == c.elementToCaseMapping && fresh(result) && unchanged(allelems(string))
 //@   loop 0 invariant forall(i, 0, len(result), present(c.elementToCaseMapping, result[i]) && c.elementToCaseMapping[result[i]] != callres(getBestCaseName))
 //@   loop 0 invariant allstr(k, $visited[k] && c.elementToCaseMapping[k] != callres(getBestCaseName) ==> exists(i, 0, len(result), result[i] == k))
+
+// ---------------------------------------------------------------------------
+// C04: validators. An error is reported by sending a result entry on the channel (ghost trace event Send).
+
+//@ pred lvFull(lv) = lvOK(lv) && ownersDistinct(lv) && priosDistinct(lv) && systemEntriesUnflagged(lv)
+//@ pred noneDeleted(lv) = forall(i, 0, len(lv.les), !lv.les[i].Delete)
+//@ pred isLeafList(tv) = tv != nil && istype(tv.Value, *sdcpb.TypedValue_LeaflistVal) && dyn(tv.Value, *sdcpb.TypedValue_LeaflistVal) != nil &&
+//@        dyn(tv.Value, *sdcpb.TypedValue_LeaflistVal).LeaflistVal != nil
+//@ pred leafListLen(tv) = len(dyn(tv.Value, *sdcpb.TypedValue_LeaflistVal).LeaflistVal.Element)
+
+//@ func (*sharedEntryAttributes).validateLeafListMinMaxAttributes
+//@   props C04
+//@   requires s != nil && lvFull(s.leafVariants)
+//@   let n0 = ntrace()
+//@   let ll = s.schema.GetLeaflist()
+//@   ensures silent_unless_leaflist: ll == nil ==> ntrace() == n0
+//@   ensures max_enforced: ll != nil && ll.MaxElements > 0 && noneDeleted(s.leafVariants) ==>
+//@            forall(i, 0, len(s.leafVariants.les), rules(s.leafVariants, s.leafVariants.les[i]) && isLeafList(tvOf(s.leafVariants.les[i].Update)) &&
+//@                   leafListLen(tvOf(s.leafVariants.les[i].Update)) > ll.MaxElements ==> ntrace() > n0)
+//@   ensures min_enforced: ll != nil && ll.MinElements > 0 && noneDeleted(s.leafVariants) ==>
+//@            forall(i, 0, len(s.leafVariants.les), rules(s.leafVariants, s.leafVariants.les[i]) && isLeafList(tvOf(s.leafVariants.les[i].Update)) &&
+//@                   leafListLen(tvOf(s.leafVariants.les[i].Update)) < ll.MinElements ==> ntrace() > n0)
+//@   ensures within_bounds_is_silent: ll != nil && noneDeleted(s.leafVariants) ==>
+//@            forall(i, 0, len(s.leafVariants.les), rules(s.leafVariants, s.leafVariants.les[i]) && isLeafList(tvOf(s.leafVariants.les[i].Update)) &&
+//@                   (ll.MinElements == 0 || leafListLen(tvOf(s.leafVariants.les[i].Update)) >= ll.MinElements) &&
+//@                   (ll.MaxElements == 0 || leafListLen(tvOf(s.leafVariants.les[i].Update)) <= ll.MaxElements) &&
+//@                   called(Value) && callres(Value, 0, 1) == nil ==> ntrace() == n0)
